@@ -17,7 +17,7 @@ RULE = ("Trees: (plus five shapes with leaf tasks waiting in to_thread.run_sync 
         "nursery.child_tasks by root identity; recursively), each task's frames a prefix of its real cr_await chain ending at a "
         "Trio trap, no error, no warning; recurse_child_tasks=False gives frameless stubs. Hops: ping-pong depth 0..M, innermost "
         "async or thread function extracts the originating task (or foreign thread): visible user frames must equal the "
-        "program's own call log (identity, order). evaluations = tasks/stacks compared; distinct_nontrivial = distinct programs.")
+        "program's own call log (identity, order); each hop case also with a second, unrelated Trio run alive in another thread (started before / after the observed run). evaluations = tasks/stacks compared; distinct_nontrivial = distinct programs.")
 ASSUMPTIONS = ["observation happens once wait_all_tasks_blocked() fires, so the observed state does not depend on Trio's batch order"]
 
 
@@ -274,9 +274,45 @@ def run_tree(shape, choice_list):
 
 
 # ------------------------------------------------------------------ hops
-def run_hops(depth, leaf, origin):
+def start_other_run():
+    """another Trio run, alive in a thread of its own for as long as the scenario lasts; returns stop()"""
+    import trio
+    box = {}
+    ready = threading.Event()
+
+    async def omain():
+        box["token"] = trio.lowlevel.current_trio_token()
+        box["ev"] = trio.Event()
+        ready.set()
+        await box["ev"].wait()
+    th = threading.Thread(target=lambda: trio.run(omain))
+    th.start()
+    ready.wait(20)
+
+    def stop():
+        box["token"].run_sync_soon(box["ev"].set)
+        th.join(20)
+    return stop
+
+
+def run_hops(depth, leaf, origin, other=None):
     """origin 'task': main task -> to_thread -> from_thread -> ... ; origin 'thread': foreign thread with a token.
-    leaf: 'async' or 'thread' = kind of the innermost function, which performs the extraction of the originator."""
+    leaf: 'async' or 'thread' = kind of the innermost function, which performs the extraction of the originator.
+    other: None, or 'before' / 'after' = a second, unrelated Trio run is alive in another thread, started before /
+    after the run under observation (the token passed to from_thread.run decides which run serves the call)."""
+    import trio
+    import stackscope
+    stops = []
+    if other == "before":
+        stops.append(start_other_run())
+    try:
+        return _run_hops(depth, leaf, origin, other, stops)
+    finally:
+        for stop in stops:
+            stop()
+
+
+def _run_hops(depth, leaf, origin, other, stops):
     import trio
     import stackscope
     problems = []
@@ -311,6 +347,8 @@ def run_hops(depth, leaf, origin):
             log.pop()
 
     async def main():
+        if other == "after":
+            stops.append(start_other_run())
         if origin == "task":
             target["obj"] = trio.lowlevel.current_task().coro
             await a(0)
@@ -330,7 +368,23 @@ def run_hops(depth, leaf, origin):
             th.start()
             await done.wait()
             th.join()
-    trio.run(main)
+    if other:
+        # the observed run lives in a fresh thread too, so that its per-thread run context is created later than
+        # (other == 'before') or earlier than (other == 'after') the unrelated run's
+        failure = []
+
+        def host():
+            try:
+                trio.run(main)
+            except BaseException as ex:  # noqa
+                failure.append(ex)
+        ht = threading.Thread(target=host)
+        ht.start()
+        ht.join(120)
+        if failure:
+            raise failure[0]
+    else:
+        trio.run(main)
     if len(res) != 1:
         return ["harness: %d observations (depth %d leaf %s)" % (len(res), depth, leaf)], 0
     st, warns, calls = res[0]
@@ -354,6 +408,8 @@ def hop_cases(maxd):
                 if origin == "task" and d == 0 and leaf == "thread":
                     pass
                 yield {"leg": "hops", "depth": d, "leaf": leaf, "origin": origin}
+                for other in ("before", "after"):
+                    yield {"leg": "hops", "depth": d, "leaf": leaf, "origin": origin, "other": other}
 
 
 QSHAPES = [[["Q"]], [["Q", []]], [[[]], ["Q"]], [[[["Q"]]]], [["Q", "Q"]]]
@@ -384,7 +440,7 @@ def do_case(case):
     if case["leg"] == "tree":
         problems, n, src = run_tree(case["shape"], [tuple(c) for c in case["choices"]])
         return problems, n
-    return run_hops(case["depth"], case["leaf"], case["origin"])
+    return run_hops(case["depth"], case["leaf"], case["origin"], case.get("other"))
 
 
 def run(ctx):
